@@ -799,6 +799,93 @@ func (e *env) balanceDrain(round int) {
 	}
 }
 
+// pooledThenConflicted: transactions with two signers are pooled; a block then
+// carries transactions that name them in Conflicts attributes, signed by the
+// pooled transaction's sender, by its second signer only, or by a stranger. A
+// pooled transaction named by an on-chain transaction of any of its signers is
+// invalid from then on: it must have left the pool, and whatever the pool still
+// holds must pack into blocks the replica accepts.
+func (e *env) pooledThenConflicted(round int) {
+	p := e.p
+	id := fmt.Sprintf("%s/round%d/pooled-then-named-by-on-chain-conflict", e.name, round)
+	if !e.run.Want(id) {
+		return
+	}
+	mp := p.BC.GetMemPool()
+	s1, s2, s3 := e.singles[round%3], e.singles[(round+1)%3], e.singles[3]
+	later := func(tx *transaction.Transaction) { tx.ValidUntilBlock = p.BC.BlockHeight() + 4 }
+	type pc struct {
+		name    string
+		victim  *transaction.Transaction
+		by      []neotest.Signer
+		invalid bool
+	}
+	cases := []pc{
+		{"by-sender", e.build([]neotest.Signer{s1, s2}, script(20), nil, later), []neotest.Signer{s1}, true},
+		{"by-second-signer", e.build([]neotest.Signer{s1, s2}, script(21), nil, later), []neotest.Signer{s2}, true},
+		{"by-second-signer-cosigned-by-stranger", e.build([]neotest.Signer{s2, s1}, script(22), nil, later), []neotest.Signer{s3, s1}, true},
+		{"by-stranger", e.build([]neotest.Signer{s1, s2}, script(23), nil, later), []neotest.Signer{s3}, false},
+	}
+	var blockTxs []*transaction.Transaction
+	pooled := 0
+	for i := range cases {
+		c := &cases[i]
+		t2, err := wire(c.victim)
+		if err != nil || p.BC.PoolTx(t2) != nil {
+			c.victim = nil
+			continue
+		}
+		pooled++
+		blockTxs = append(blockTxs, e.build(c.by, script(30+i), []transaction.Attribute{{Type: transaction.ConflictsT, Value: &transaction.Conflicts{Hash: c.victim.Hash()}}}, nil))
+	}
+	if pooled == 0 {
+		return
+	}
+	e.run.Case(id, true)
+	if p.AddBlock(blockTxs...) == nil {
+		e.run.Violation("producer-rejected-own-block", id, p.Rejected.Error(), nil)
+		e.broken = true
+		return
+	}
+	e.sync()
+	for _, c := range cases {
+		if c.victim == nil {
+			continue
+		}
+		e.run.Obs("pooled_transactions_named_by_a_later_block", 1)
+		if c.invalid && mp.ContainsKey(c.victim.Hash()) {
+			e.viol("pool-keeps-transaction-named-by-on-chain-conflict-of-its-signer:"+c.name, id, "still pooled after the block with the conflicting transaction", c.victim)
+		}
+		if c.invalid {
+			cp, _ := wire(c.victim)
+			if err := e.admit(cp); err == nil {
+				e.viol("invalid-transaction-admitted:invalid:named-by-on-chain-conflict:"+c.name, id, "pooled again", c.victim)
+			}
+		}
+	}
+	for n := 0; n < 2 && mp.Count() > 0; n++ {
+		sel := p.BC.ApplyPolicyToTxSet(mp.GetVerifiedTransactions())
+		if len(sel) == 0 {
+			break
+		}
+		blk := p.NewBlock(sel...)
+		raw := vchain.EncodeBlock(blk)
+		e.run.Obs("proposals_after_pooled_transactions_were_named_by_a_block", 1)
+		if err := e.rep.AddRaw(raw); err != nil {
+			e.run.Violation("packed-block-rejected-after-wire-round-trip:pooled-transaction-named-by-on-chain-conflict", id, fmt.Sprintf("%d txs: %v", len(sel), err), map[string]any{"env": e.name, "block_hex": fmt.Sprintf("%x", raw)})
+			e.broken = true
+			return
+		}
+		if err := p.BC.AddBlock(blk); err != nil {
+			e.viol("packed-block-rejected-by-its-own-node", id, err.Error(), nil)
+			e.broken = true
+			return
+		}
+		p.Raw = append(p.Raw, raw)
+		p.Blocks = append(p.Blocks, blk)
+	}
+}
+
 func TestCheck(t *testing.T) {
 	run := ev.Start("C07", "cases: (1) admission verdicts — transactions built valid against the current chain state (1-3 signers, single-sig and m-of-n up to 15-of-29 (the invocation script limit of 1024 bytes caps m at 15), attributes, script sizes up to the limits) and mutants invalid in exactly one named respect, offered through the wire decoder to PoolTx; (2) history-dependent rules (on chain, named as a conflict by an on-chain transaction of its signer / of a stranger); (3) fee boundary: calculator fee accepted, one unit less rejected, one more accepted, over signer combinations x script sizes x fee-per-byte x exec-fee-factor; (4) proposals: the node's own pool (incl. alternative accepted encodings) packed by ApplyPolicyToTxSet under tight block limits, sealed, serialized, parsed and added on a replica; distinct by (environment, round, case)")
 	defer run.Finish()
@@ -864,6 +951,10 @@ func TestCheck(t *testing.T) {
 				break
 			}
 			e.balanceDrain(round)
+			if e.broken {
+				break
+			}
+			e.pooledThenConflicted(round)
 			if e.broken {
 				break
 			}
